@@ -43,7 +43,19 @@ RULE = (
     "timestamp TEXT must parse with the stdlib to the written wall clock and offset; records whose timestamp sits next to "
     "a value an adapter refuses or treats specially (varint beyond 64 bit, surrogate escape, NUL, NaN, inf), each written "
     "on its own: write() raised => the record is absent and later ones are unaffected, write() returned => exact "
-    "timestamp; the same inside every environment worker, where the set of refused records must equal the baseline's."
+    "timestamp; the same inside every environment worker, where the set of refused records must equal the baseline's.  "
+    "Tier sizes: quick = 10 timestamps per case, 1440 + 72 + 144 in-process cases, 4 groups x 12 environments x 60 "
+    "timestamps; thorough = 24 timestamps per case, 48000 + 2700 + 5400 in-process cases, 56 groups x 32 environments x 240 "
+    "timestamps, and the DEEP input class: zones drawn from every zone of the system database (fold / gap wall times of "
+    "any year 1900-2037: 30-minute and 24-hour shifts, negative DST, LMT switches), a user-defined tzinfo class with a "
+    "month- and fold-dependent offset, a datetime subclass as input object; 20 extra environments (display zones "
+    "Asia/Kathmandu, Australia/Lord_Howe, Pacific/Apia, Africa/Monrovia, Etc/GMT+12, lower-case 'none'; process zones "
+    "America/St_Johns, Pacific/Kiritimati).  Round 6: files of OTHER producers - hand-made flow.record JSON lines whose "
+    "datetime fields carry ISO text with every fraction length 0..9, 'T' / blank / 't' separator and Z / +hhmm / "
+    "+hh:mm[:ss] offsets (reference: the components, cross-checked with this Python's fromisoformat; refused texts are "
+    "dropped), and hand-made SQLite databases with DATETIME / TIMESTAMP / TIMESTAMPTZ / TIMESTAMP WITH TIME ZONE columns "
+    "holding UNIX seconds (0, 0.0, -0.0, +-1, +-0.5, 2**31+-1, 2**32, year-1 / year-9999 limits, numeric text) and ISO text: "
+    "expected = the instant of what a plain sqlite3 connection shows as stored (36 / 720 such files per run)."
 )
 ASSUMPTIONS = [
     "sub-second UTC offsets are outside the generated class (offsets are whole seconds, |offset| < 24 h)",
@@ -60,13 +72,23 @@ ASSUMPTIONS = [
     "a falsy `_generated` argument as 'not given' and stores the current time; ordinary timestamp fields do get epoch 0",
 ]
 SHARDS = {"quick": 8, "thorough": 16}
-BUDGET_S = {"quick": 150, "thorough": 900}
+BUDGET_S = {"quick": 150, "thorough": 1800}
 
 FORMATS = ("stream", "json", "sqlite", "avro")
 PROC_TZ = (None, "Asia/Tokyo", "America/St_Johns")
 ENVS = [(f, t) for t in (None, "Asia/Tokyo") for f in (None, "UTC", "Europe/Amsterdam", "America/St_Johns", "NONE", "invalid")]
+# thorough tier only (appended, so the indices of the 12 DESIGN environments stay): display zones with 45-minute, 30-minute-DST,
+# date-line, LMT-second and fixed Etc offsets, lower-case 'none'; process zones with a half-hour offset and UTC+14
+ENVS += [(f, t) for t in (None, "Asia/Tokyo") for f in ("Asia/Kathmandu", "Australia/Lord_Howe", "Pacific/Apia", "Africa/Monrovia", "Etc/GMT+12", "none")]
+ENVS += [(f, t) for t in ("America/St_Johns", "Pacific/Kiritimati") for f in (None, "UTC", "Europe/Amsterdam", "NONE")]
+N_QUICK_ENVS = 12
+TZNAME_HINT = {"Asia/Tokyo": "JST", "America/St_Johns": "NST", "Pacific/Kiritimati": "+14"}
 WORKER_TIMEOUT_S = 120
-K = 10
+K = 10  # timestamps per in-process case (quick); thorough uses 24, see k_of()
+
+
+def k_of(ctx):
+    return 10 if ctx.quick else 24
 
 ANCHORS = [
     "flow.record.fieldtypes:datetime.__new__",
@@ -108,37 +130,46 @@ def _set_tz(tz):
 
 def generate(ctx):
     idx = 0
-    reps = ctx.scale(120, 1500)
+    reps = ctx.scale(120, 4000)
     for rep in range(reps):
         for fmt in FORMATS:
             for tz in PROC_TZ:
                 if ctx.mine(idx):
-                    yield {"k": "ts", "fmt": fmt, "tz": tz, "s": subseed("c13", ctx.seed, "ts", fmt, tz, rep)}
+                    yield {"k": "ts", "fmt": fmt, "tz": tz, "s": subseed("c13", ctx.seed, "ts", fmt, tz, rep), "K": k_of(ctx), "deep": not ctx.quick}
                 idx += 1
     # plain JSON (descriptors=false, also rdump -J / -j): the timestamp TEXT must parse back to what was written
     idx = 0
-    for rep in range(ctx.scale(24, 300)):
+    for rep in range(ctx.scale(24, 900)):
         for tz in PROC_TZ:
             if ctx.mine(idx + 1):
                 yield {"k": "plain", "tz": tz, "rdump": (None, "-J", None, "-j", None, None)[(idx // 3) % 6] if idx % 2 == 0 else None,
-                       "s": subseed("c13", ctx.seed, "plain", tz, rep)}
+                       "s": subseed("c13", ctx.seed, "plain", tz, rep), "K": k_of(ctx), "deep": not ctx.quick}
             idx += 1
     # timestamps next to values an adapter refuses or treats specially (integers beyond 64 bit, surrogate escapes, NaN)
     idx = 0
-    for rep in range(ctx.scale(12, 150)):
+    for rep in range(ctx.scale(12, 450)):
         for fmt in FORMATS:
             for tz in PROC_TZ:
                 if ctx.mine(idx + 2):
-                    yield {"k": "mixed", "fmt": fmt, "tz": tz, "s": subseed("c13", ctx.seed, "mixed", fmt, tz, rep)}
+                    yield {"k": "mixed", "fmt": fmt, "tz": tz, "s": subseed("c13", ctx.seed, "mixed", fmt, tz, rep), "deep": not ctx.quick}
+                idx += 1
+    # foreign producers: hand-made flow.record JSON lines and hand-made SQLite databases holding timestamps
+    idx = 0
+    for rep in range(ctx.scale(6, 120)):
+        for kind in ("fjson", "fsqlite"):
+            for tz in PROC_TZ:
+                if ctx.mine(idx + 4):
+                    yield {"k": kind, "tz": tz, "s": subseed("c13", ctx.seed, kind, tz, rep), "deep": not ctx.quick}
                 idx += 1
     # environment groups: every part re-runs the baseline environment (index 0) and compares the others against it
-    groups = ctx.scale(4, 20)
-    parts = [[1, 2, 3, 4], [5, 6, 7, 8], [9, 10, 11]]
+    groups = ctx.scale(4, 56)
+    others = list(range(1, N_QUICK_ENVS if ctx.quick else len(ENVS)))
+    parts = [others[i:i + 4] for i in range(0, len(others), 4)]
     idx = 0
     for g in range(groups):
         for part in parts:
             if ctx.mine(idx + 3):  # offset so that quick's 6 parts land on different shards than the first 'ts' cases
-                yield {"k": "env", "envs": [0] + part, "n": ctx.scale(60, 150), "s": subseed("c13", ctx.seed, "env", g) % 10**9}
+                yield {"k": "env", "envs": [0] + part, "n": ctx.scale(60, 240), "s": subseed("c13", ctx.seed, "env", g) % 10**9, "deep": not ctx.quick}
             idx += 1
 
 
@@ -206,6 +237,10 @@ def execute(ctx, case):
         return execute_env(ctx, case)
     if case["k"] == "plain":
         return execute_plain(ctx, case)
+    if case["k"] == "fjson":
+        return execute_foreign_json(ctx, case)
+    if case["k"] == "fsqlite":
+        return execute_foreign_sqlite(ctx, case)
     if case["k"] == "mixed":
         return execute_mixed(ctx, case)
     from flow.record import RecordDescriptor, RecordReader, RecordWriter
@@ -214,8 +249,8 @@ def execute(ctx, case):
     fmt = case["fmt"]
     _set_tz(case["tz"])
     rng = random.Random(case["s"])
-    specs = model.make_specs(rng, K)
-    gspecs = model.make_specs(rng, K)
+    specs = model.make_specs(rng, case.get("K", K), case.get("deep", False))
+    gspecs = model.make_specs(rng, case.get("K", K), case.get("deep", False))
     T = RecordDescriptor("verif/c13ts", [("datetime", "ts"), ("varint", "i")])
     L = RecordDescriptor("verif/c13list", [("datetime[]", "tl"), ("varint", "i")])
     ctx.ev()
@@ -412,8 +447,8 @@ def execute_plain(ctx, case):
     ft = _ft()
     _set_tz(case["tz"])
     rng = random.Random(case["s"])
-    specs = model.make_specs(rng, K)
-    gspecs = model.make_specs(rng, K)
+    specs = model.make_specs(rng, case.get("K", K), case.get("deep", False))
+    gspecs = model.make_specs(rng, case.get("K", K), case.get("deep", False))
     # plain JSON is read by other tools: years below 1000 and 9999 are where fixed-width year formatting matters
     for sp in specs[:4] + gspecs[:4]:
         if "c" in sp and sp["form"] in ("obj", "ftobj") and (sp["tz"] is None or sp["tz"][0] != "zone"):
@@ -521,6 +556,161 @@ def execute_plain(ctx, case):
     ctx.sample({"case": case, "first_line": text[:200]}, kind="plain")
 
 
+# ---- files of OTHER producers: hand-made flow.record JSON, hand-made SQLite databases ---------------------------
+def execute_foreign_json(ctx, case):
+    """A descriptor line and record lines written by hand (no flow.record writer): the datetime fields carry ISO text
+    with every fraction length 0..9, 'T' / blank / 't' separator, Z / +hhmm / +hh:mm[:ss] offsets.  Reference: the
+    components the text was rendered from, cross-checked with this Python's datetime.fromisoformat (texts it refuses
+    are outside the class and dropped)."""
+    from flow.record import RecordReader
+
+    from ..refcodec import descriptor_hash
+
+    _set_tz(case["tz"])
+    rng = random.Random(case["s"])
+    ctx.ev()
+    deep = case.get("deep", False)
+    name = "foreign/ts%x" % (case["s"] & 0xFFFF)
+    fields = [["datetime", "ts"], ["varint", "i"], ["datetime", "ts2"]]
+    ident = [name, descriptor_hash(name, [(t, n) for t, n in fields])]
+    rows = []
+    lines = [json.dumps({"_type": "recorddescriptor", "_data": [name, fields]})]
+    i = 0
+    for fd in range(10):
+        for sep in ("T", " ", "t"):
+            sp = model.foreign_text_spec(rng, fd, sep, rng.choice(model.ISO_TZ_SPELLINGS), rng.random() < 0.6, deep)
+            sp2 = model.foreign_text_spec(rng, rng.randrange(10), rng.choice("T "), rng.choice(model.ISO_TZ_SPELLINGS), rng.random() < 0.6, deep)
+            ref1, ref2 = model.stdlib_reference(sp), model.stdlib_reference(sp2)
+            if ref1 is None or ref2 is None:
+                ctx.event("foreign_texts_outside_this_pythons_iso_class")
+                continue
+            if ref1 not in model.expected(sp) or ref2 not in model.expected(sp2):
+                ctx.require(False, "C13 model and datetime.fromisoformat disagree on %r" % model.render_iso(sp))
+                continue
+            doc = {"ts": model.render_iso(sp), "i": i, "ts2": model.render_iso(sp2)}
+            if rng.random() < 0.5:
+                doc["_generated"] = "2024-01-02T03:04:05.000678+00:00"
+            doc["_type"] = "record"
+            doc["_recorddescriptor"] = ident
+            lines.append(json.dumps(doc))
+            rows.append((i, sp, sp2))
+            ctx.cell("foreign-json", "fd=%d" % fd, "sep=%r" % sep)
+            i += 1
+    path = os.path.join(ctx.state["tmp"], "fj%d.json" % ctx.evaluations)
+    try:
+        with open(path, "w", encoding="utf-8") as f:
+            f.write("\n".join(lines) + "\n")
+        try:
+            rd = RecordReader(path)
+            got = list(rd)
+            rd.close()
+        except Exception as e:  # noqa: BLE001
+            ctx.violation(None, "reading hand-made flow.record JSON with ISO timestamps raised %s" % type(e).__name__,
+                          detail={"exception": repr(e)[:300], "first_lines": lines[:3]})
+            return
+        if len(got) != len(rows):
+            ctx.violation(None, "hand-made JSON: the number of records read differs from the number of record lines", detail={"lines": len(rows), "read": len(got)})
+            return
+        for (i, sp, sp2), o in zip(rows, got):
+            for key, s_ in (("ts", sp), ("ts2", sp2)):
+                v = getattr(o, key)
+                ctx.event("foreign_json_timestamps_checked")
+                check_field_obs(ctx, s_, None if v is None else model.observe_dt(v), "hand-made JSON field")
+    finally:
+        try:
+            os.unlink(path)
+        except OSError:
+            pass
+    ctx.nontrivial("fjson", case["tz"], case["s"])
+    ctx.sample({"case": case, "lines": lines[1:4]}, kind="fjson")
+
+
+SQL_DECLS = ("DATETIME", "TIMESTAMP", "TIMESTAMPTZ", "TIMESTAMP WITH TIME ZONE")
+EPOCH_NUMBERS = [0, 0.0, -0.0, 1, -1, 0.5, -0.5, 2**31 - 1, 2**31, 2**31 + 1, 2**32, -(2**31), 253402300799, -62135596800, 1e9, 1700000000.25,
+                 "0", "1", "0.0", "1.5", "-1"]
+
+
+def execute_foreign_sqlite(ctx, case):
+    """A database made with the plain sqlite3 module: columns declared DATETIME / TIMESTAMP / TIMESTAMPTZ / TIMESTAMP WITH
+    TIME ZONE holding UNIX seconds (bound as int, float, numeric text - SQLite decides the storage class) and ISO text.
+    Expected = the instant of what SQLite actually stores (read back through a plain connection): number => epoch
+    seconds (exact rational arithmetic), text => the model of the ISO text."""
+    import sqlite3
+    from fractions import Fraction
+
+    from flow.record import RecordReader
+
+    _set_tz(case["tz"])
+    rng = random.Random(case["s"])
+    ctx.ev()
+    path = os.path.join(ctx.state["tmp"], "fs%d.db" % ctx.evaluations)
+    specs = model.make_specs(rng, 8, case.get("deep", False))
+    texts = [(sp, model.render_iso(sp)) for sp in (model.foreign_text_spec(rng, rng.randrange(10), rng.choice("T "), "colon", True) for _ in range(8))]
+    texts = [(sp, t) for sp, t in texts if model.stdlib_reference(sp) is not None]
+    try:
+        con = sqlite3.connect(path)
+        cols = ", ".join('"c%d" %s' % (k, d) for k, d in enumerate(SQL_DECLS))
+        con.execute('CREATE TABLE "foreign_ts" ("id" INTEGER, %s)' % cols)
+        nrows = len(EPOCH_NUMBERS) + len(texts) + 2
+        for i in range(nrows):
+            vals = []
+            for k in range(len(SQL_DECLS)):
+                j = (i + k * 5) % nrows
+                if j < len(EPOCH_NUMBERS):
+                    vals.append(EPOCH_NUMBERS[j])
+                elif j < len(EPOCH_NUMBERS) + len(texts):
+                    vals.append(texts[j - len(EPOCH_NUMBERS)][1])
+                else:
+                    vals.append(None)
+            con.execute('INSERT INTO "foreign_ts" VALUES (?, ?, ?, ?, ?)', [i] + vals)
+        con.commit()
+        stored = con.execute('SELECT * FROM "foreign_ts" ORDER BY rowid').fetchall()
+        con.close()
+        text_spec = {t: sp for sp, t in texts}
+        try:
+            rd = RecordReader("sqlite://" + path)
+            got = list(rd)
+            rd.close()
+        except Exception as e:  # noqa: BLE001
+            ctx.violation(None, "reading a hand-made SQLite database with timestamp columns raised %s" % type(e).__name__,
+                          detail={"exception": repr(e)[:300], "rows": [list(r) for r in stored[:4]]})
+            return
+        if len(got) != len(stored):
+            ctx.violation(None, "hand-made SQLite: the number of records read differs from the number of rows", detail={"rows": len(stored), "read": len(got)})
+            return
+        for row, o in zip(stored, got):
+            for k, decl in enumerate(SQL_DECLS):
+                val = row[k + 1]
+                v = getattr(o, "c%d" % k)
+                ob = None if v is None else (model.observe_dt(v) if isinstance(v, _dt.datetime) else ["not-a-datetime", repr(v)[:60]])
+                ctx.event("foreign_sqlite_cells_checked")
+                ctx.cell("foreign-sqlite", decl, type(val).__name__)
+                if val is None:
+                    if ob is not None:
+                        ctx.violation(None, "hand-made SQLite: a NULL timestamp cell is read as a value", detail={"column": decl, "read": ob})
+                    continue
+                if isinstance(val, str):
+                    sp = text_spec.get(val)
+                    if sp is None:
+                        continue
+                    check_field_obs(ctx, sp, ob, "hand-made SQLite ISO text cell")
+                    continue
+                exact = Fraction(val) * 10**6
+                import math as _math
+
+                acceptable = [model.us_to_wall(u) + [0] for u in sorted({_math.floor(exact), _math.ceil(exact)})]
+                if ob not in acceptable:
+                    ctx.violation(None, "hand-made SQLite: a UNIX-seconds cell in a timestamp column is not read as that instant",
+                                  detail={"column": decl, "stored": repr(val), "storage_class": type(val).__name__, "read": ob, "expected_any_of": acceptable})
+    finally:
+        try:
+            os.unlink(path)
+        except OSError:
+            pass
+    ctx.nontrivial("fsqlite", case["tz"], case["s"])
+    ctx.sample({"case": case, "rows": [list(r) for r in stored[:3]]}, kind="fsqlite")
+
+
 # ---- timestamps next to values an adapter refuses or treats specially ------------------------------------------
 COMPANIONS = [("big", 2**63), ("big", -(2**63) - 1), ("big", 2**64), ("big", 10**40), ("big", 2**63 - 1), ("big", -(2**63)),
               ("s", "lone\udcffescape"), ("s", "nul\x00inside"), ("f", float("nan")), ("f", float("inf")), ("f", -0.0), ("big", None)]
@@ -536,7 +726,7 @@ def execute_mixed(ctx, case):
     fmt = case["fmt"]
     _set_tz(case["tz"])
     rng = random.Random(case["s"])
-    specs = model.make_specs(rng, len(COMPANIONS))
+    specs = model.make_specs(rng, len(COMPANIONS), case.get("deep", False))
     M = RecordDescriptor("verif/c13mixed", [("datetime", "ts"), ("varint", "i"), ("varint", "big"), ("string", "s"), ("float", "f")])
     ctx.ev()
     ext = {"stream": "records", "json": "json", "sqlite": "db", "avro": "avro"}[fmt]
@@ -633,7 +823,7 @@ def run_worker(ctx, case, envidx):
     env.setdefault("PYTHONHASHSEED", "0")
     wd = tempfile.mkdtemp(prefix="w%d-" % envidx, dir=ctx.state["tmp"])
     try:
-        p = subprocess.run([sys.executable, "-W", "ignore", "-m", "verif.worker_c13", str(case["s"]), str(case["n"]), wd], env=env,
+        p = subprocess.run([sys.executable, "-W", "ignore", "-m", "verif.worker_c13", str(case["s"]), str(case["n"]), wd] + (["deep"] if case.get("deep") else []), env=env,
                            cwd=VERIF_DIR, capture_output=True, text=True, timeout=WORKER_TIMEOUT_S)
     except subprocess.TimeoutExpired:
         ctx.require(False, "a C13 environment worker exceeded its %d s watchdog" % WORKER_TIMEOUT_S)
@@ -650,8 +840,8 @@ def run_worker(ctx, case, envidx):
     if out["env"] != {"FLOW_RECORD_TZ": flow_tz, "TZ": tz}:
         ctx.require(False, "environment was not propagated to a C13 worker: wanted %r got %r" % ((flow_tz, tz), out["env"]))
         return None
-    if tz == "Asia/Tokyo":
-        ctx.require("JST" in out["tzname"], "TZ=Asia/Tokyo did not take effect in a C13 worker (tzname %r)" % (out["tzname"],))
+    if tz in TZNAME_HINT:
+        ctx.require(TZNAME_HINT[tz] in out["tzname"], "TZ=%s did not take effect in a C13 worker (tzname %r)" % (tz, out["tzname"]))
     repo = os.path.realpath(os.environ.get("VERIF_REPO", "/repo"))
     ctx.require(os.path.realpath(out["flow_record_file"]).startswith(repo + os.sep),
                 "C13 worker imported flow.record from %s, not from %s" % (out["flow_record_file"], repo))
@@ -735,7 +925,7 @@ def check_worker_mixed(ctx, envidx, out, specs, base):
 
 def execute_env(ctx, case):
     ctx.ev()
-    specs = model.make_specs(random.Random(case["s"]), case["n"])
+    specs = model.make_specs(random.Random(case["s"]), case["n"], case.get("deep", False))
     base = None
     for envidx in case["envs"]:
         out = run_worker(ctx, case, envidx)
